@@ -167,6 +167,7 @@ safe Version [C03]
 module upgrade
 props C16
 use common core
+use common vote
 dialect neovm
 
 // C16: an upgrade runs only from a supported older version and preserves what the read API shows.
@@ -188,7 +189,6 @@ func switchToAccPrefixes(ctx)
     invariant notifs == old(notifs)
 
 func switchToNotary(ctx)
-  trusted
   ensures forall k Bytes {store.opt(k)} :: k != "notary" && k != "netmapScriptHash" && k != "containerScriptHash" && k != "ballots" ==> store.opt(k) == old(store).opt(k)
   ensures notifs == old(notifs)
 
@@ -197,4 +197,10 @@ func _deploy(data, isUpdate)
   ensures [C16] isUpdate ==> PrevVersion <= lastarg(data) && lastarg(data) < Version
   // the supply counter survives every upgrade path
   ensures [C16] isUpdate ==> store.opt("MainnetGAS") == old(store).opt("MainnetGAS")
+  // balances survive every upgrade path: from a version with the old layout (below 0.20.0) every account record k moves to "a"++k,
+  // from a newer one the account records are untouched
+  ensures [C16] isUpdate && lastarg(data) < 20000 ==> forall a Bytes {store.opt("a" ++ a)} :: len(a) == 20 && old(store).has(a) ==> store.opt("a" ++ a) == old(store).opt(a)
+  ensures [C16] isUpdate && lastarg(data) < 20000 ==> forall a Bytes {store.opt(a)} :: len(a) == 20 ==> !store.has(a)
+  ensures [C16] isUpdate && lastarg(data) >= 20000 ==> forall a Bytes {store.opt("a" ++ a)} :: len(a) == 20 ==> store.opt("a" ++ a) == old(store).opt("a" ++ a)
+  ensures [C16] isUpdate ==> notifs == old(notifs)
 @*/
